@@ -499,7 +499,7 @@ func c11Hostile(c *vf.Ctx) {
 	if !c.Active(sub) {
 		return
 	}
-	n := c.N(40000, 3000000)
+	n := c.N(40000, 8000000)
 	for i := 0; i < n; i++ {
 		if !c.Mine(sub, i) {
 			continue
